@@ -303,6 +303,41 @@ theorem enoent_unrecognised_never_recovers (sets : List (List File)) (F : List F
     | cons G r ih => rw [List.foldl_cons, (hstuck G).2]; exact ih
   exact ⟨hsn, by rw [hsn]; exact (hstuck F).1⟩
 
+/-! ## 4c. A `WriteFile` error of ANY class aborts the call -/
+
+/-- **No error value is benign in the write phase.** If `ReplaceFiles` returns nil then NO operation of its write
+phase (Create, Chmod, Write of every file: the `3 * |F|` operations after the removal loop) was hit by a fault —
+of any kind and whatever error the operation would have returned (EIO, EACCES, ENOSPC, a bare or wrapped ENOENT,
+a short write): every such error makes the call return an error (or the process die), so that the caller retries
+instead of reloading NGINX with a file missing. -/
+theorem write_error_aborts_any_class (sch : Sched) (s : St) (F : List File)
+    (hok : (replaceFiles sch s F).out = .ok) :
+    ∀ j, j < 3 * F.length → sch (s.last.length + j) = none := by
+  intro j hj
+  unfold replaceFiles replaceFilesV at hok
+  simp only at hok
+  split at hok
+  · next hr =>
+    have hk := removeLoop_ok_k sch s.last 0 s.fs hr
+    have := writeLoop_ok_noFault true sch F _ _ _ hok j hj
+    rw [hk] at this
+    simpa using this
+  · next hne => exact absurd hok (by simpa using hne)
+
+/-- in particular an ENOENT at the `Create` of the key file (operation 3) fails the call -/
+example :
+    let sch : Sched := fun k => if k = 3 then some .enoent else none
+    (replaceFiles sch ⟨[], []⟩ [hcL, kpL]).out = .failed ∧
+      (replaceFiles noFaults (replaceFiles sch ⟨[], []⟩ [hcL, kpL]).st [hcL, kpL]).out = .ok := by decide
+
+/-- **Witness for the variant "ENOENT on create is benign"** (the write loop `continue`s on an error that unwraps to
+`fs.ErrNotExist`): the call returns nil although the key file of the new listener was never written — the disk is
+not the generated set after a "successful" replacement, and nobody retries. -/
+theorem enoent_on_create_benign_witness :
+    let sch : Sched := fun k => if k = 3 then some .enoent else none
+    let r := replaceFilesBenign sch ⟨[], []⟩ [hcL, kpL]
+    r.out = .ok ∧ get r.st.fs kpL.path = none ∧ kpL.path ∈ r.st.last := by decide
+
 /-! ## 5. Start-up cleanup, crashes and the whole control plane -/
 
 /-- `ClearFolders` never touches a bootstrap file and never creates anything — under every schedule. -/
